@@ -15,7 +15,7 @@ DRAIN = mb.DRAIN
 
 def run(ctx):
     prog, info = mb.load()
-    for fn in (SEND, DRAIN, 'ActorProperties::try_admit_message', 'ActorProperties::send_drain_marker', 'ActorProperties::close_message_admission',
+    for fn in (SEND, mb.SEND_SERIALIZED, DRAIN, 'ActorProperties::try_admit_message', 'ActorProperties::send_drain_marker', 'ActorProperties::close_message_admission',
                'ActorProperties::get_status', '<MessageAdmission as Drop>::drop'):
         b = prog.find_fn(fn)
         if b is None:
@@ -34,11 +34,11 @@ def run(ctx):
                         'user Message::box_message/from_boxed are opaque wrappers of the same message token (local actor, cannot fail)']
     # name, senders, msgs per sender, drainers, rounds, CAS unroll, spurious weak-CAS failures explored
     if quick:
-        insts = [('s2x1_d1_r2', 2, 1, 1, 2, 2, False), ('s1x1_d2_r2', 1, 1, 2, 2, 2, False), ('s1x2_d1_r2', 1, 2, 1, 2, 2, False)]
+        insts = [('s2x1_d1_r2', 2, 1, 1, 2, 2, False), ('s1x1_d2_r2', 1, 1, 2, 2, 2, False), ('s1x2_d1_r2', 1, 2, 1, 2, 2, False), ('s2x1_d1_r2_ser', 2, 1, 1, 2, 2, False)]
     else:
         insts = [('s2x1_d1_r2', 2, 1, 1, 2, 2, False), ('s1x1_d2_r2', 1, 1, 2, 2, 2, False), ('s1x2_d1_r2', 1, 2, 1, 2, 2, False),
                  ('s2x1_d1_r3_u3', 2, 1, 1, 3, 3, False), ('s2x2_d1_r2', 2, 2, 1, 2, 2, False), ('s2x1_d2_r2', 2, 1, 2, 2, 2, False),
-                 ('s3x1_d1_r2', 3, 1, 1, 2, 2, False), ('s2x1_d1_r2_spurious', 2, 1, 1, 2, 3, True), ('s1x1_d2_r3_spurious', 1, 1, 2, 3, 3, True)]
+                 ('s3x1_d1_r2', 3, 1, 1, 2, 2, False), ('s2x1_d1_r2_spurious', 2, 1, 1, 2, 3, True), ('s1x1_d2_r3_spurious', 1, 1, 2, 3, 3, True), ('s2x1_d1_r2_ser', 2, 1, 1, 2, 2, False), ('s1x2_d1_r2_ser', 1, 2, 1, 2, 2, False)]
     if os.environ.get('VERIF_C07_INST'):
         a = os.environ['VERIF_C07_INST'].split(',')
         insts = [(os.environ['VERIF_C07_INST'], int(a[0]), int(a[1]), int(a[2]), int(a[3]), int(a[4]), len(a) > 5 and a[5] == '1')]
@@ -74,7 +74,8 @@ def run(ctx):
 
 def run_instance_job(sub, name, ns, nm, nd, R, U, spurious):
     prog, info = mb.load()
-    mb.run_instance(sub, 'C07', prog, name, ns, nm, nd, 0, R, U, spurious=spurious)
+    # instances whose name ends in _ser: the last sender delivers through send_serialized (the entry point remote nodes use)
+    mb.run_instance(sub, 'C07', prog, name, ns, nm, nd, 0, R, U, spurious=spurious, serialized=(ns - 1,) if name.endswith('_ser') else ())
 
 
 def replay_file(path):
